@@ -160,7 +160,7 @@ def corpus():
 
 
 def cases(rng, tier):
-    ndag, nun, nrt, maxn = (22, 12, 5, 10) if tier == "quick" else (260, 22, 8, 16)
+    ndag, nun, nrt, maxn = (22, 12, 5, 10) if tier == "quick" else (200, 20, 8, 16)
     dags = list(FIXED)
     for _ in range(ndag):
         dags.append(daglib.gen_dag(rng, rng.randint(2, maxn), p_merge=0.45))
